@@ -253,7 +253,7 @@ def compare(ctx, sessions, base, other, k, rerun=None):
 
 def plan(tier, seed):
     quick = tier == "quick"
-    return {"nshards": 16, "params": {"soft_s": 600 if quick else 2400, "sessions": 4 if quick else 50, "script_len": 6 if quick else 12, "variants": 5 if quick else 7}, "hard_timeout_s": 2700 if quick else 9000, "max_par": 8}
+    return {"nshards": 16, "params": {"soft_s": 600 if quick else 2400, "sessions": 4 if quick else 16, "script_len": 6 if quick else 10, "variants": 5 if quick else 7}, "hard_timeout_s": 2700 if quick else 9000, "max_par": 8}
 
 
 def shard(ctx):
